@@ -2,6 +2,7 @@
 mod common;
 mod c01;
 mod c02;
+mod c03;
 mod c04;
 mod c11;
 mod c13;
@@ -43,6 +44,7 @@ fn main() {
         }
         "c01-record" => c01::record(rest),
         "c02-record" => c02::record(rest),
+        "c03-replay" => c03::replay(rest),
         "c04-replay" => c04::replay(rest),
         "c04-observe" => c04::observe(rest),
         "c04-legacy" => c04::legacy(rest),
